@@ -101,6 +101,19 @@ CHECKS.update({
             "DESIGN.md §4 C17"),
 })
 
+CHECKS.update({
+    "C04": ("model_checking", "E2",
+            "explicit-state BFS over add/del/merge histories on 3 replicas of the real CRDT (volatile, durable, event.State), ghost-set oracle on every reached state, process-level workers",
+            "Every history of add/del with logical clocks {1,2,3} (ties and out-of-order included) and merges (clone, encode/decode, forwarded delta) among three replicas up to the stated depth is replayed on the real Volatile/Durable/State implementations; in every state every replica's (add, remove) times read through Get/Has/Range/Count (and the State accessors) must equal the pointwise maximum over the set of primitive updates it has transitively received, and Has must equal 'added and latest add not older than latest remove'.",
+            "states are merged on per-key maxima of the ghost sets + replica symmetry (cross-checked against the unreduced key); values after the 16-byte header are not compared.",
+            "DESIGN.md §4 C04"),
+    "C05": ("model_checking", "E2",
+            "explicit-state BFS over client activity x gossip transport schedules on 2-3 real brokers wired through real mesh gossipSender objects (one per directed link), states deduplicated by a canonical dump of every broker's replicated state, peer counters, routing entries and queued payloads; quiescence closure + routing oracle in every state",
+            "Events: subscribe/unsubscribe/disconnect of a client on any broker (budget 3-4), delivery of one queued payload on one link (gossip bucket first, explorer chooses the broadcast source), periodic full-state gossip, link down/up, peer garbage collection. In every reached state all links are brought up and full-state rounds are run until nothing changes; then every broker must hold a routing entry for a peer iff that peer has a live local subscriber, and a publish on every broker must reach every subscriber exactly once.",
+            "deliveries atomic per broker; mesh routing transcribed for <= 3 brokers; one logical clock; peer liveness timeouts never elapse.",
+            "DESIGN.md §4 C05"),
+})
+
 NOT_YET = {}
 
 
